@@ -23,11 +23,24 @@ SvClassAll == \A k \in SvRawKinds : \E c \in CfgSpace : Made(c) /\ c.sg.kind = k
                  \E e \in Edits(c) : e.op = op /\ e.need = SvNeed(op) /\ e.need # "any" /\ e.sig = "reject"
 SvDerAll == \A k \in Kinds : \E c \in CfgSpace : Made(c) /\ c.kind = k /\ c.sg.kind = "ecdsa" /\ \A op \in SvDerOps \cup {"svtzcut"} :
                  \E e \in Edits(c) : e.op = op /\ e.sig = "reject"
+\* representations: a delegation given as a tuple of exactly two components (the shape of a 0.2 (preference, name) pair), an
+\* empty tuple, and every form x every count 0..2 at every name position (packet name of both kinds, delegation, KeyLocator)
+TupleOfTwo(c) == Made(c) /\ \E i \in 1..Len(c.rep.fh) : c.rep.fh[i].box = "tuple" /\ Len(c.fh[i]) = 2
+EmptyTupleHint(c) == Made(c) /\ \E i \in 1..Len(c.rep.fh) : c.rep.fh[i].box = "tuple" /\ Len(c.fh[i]) = 0
+MixedHintForms(c) == Made(c) /\ Len(c.rep.fh) = 2 /\ c.rep.fh[1] = [box |-> "list", item |-> "bytes"] /\ c.rep.fh[2].box = "tuple"
+FormsEverywhere == \A f \in NameForms, n \in 0..2 :
+   /\ \A k \in Kinds : \E c \in CfgSpace : Made(c) /\ c.kind = k /\ c.rep.name = f /\ Len(c.name) = n
+   /\ \E c \in CfgSpace : Made(c) /\ \E i \in 1..Len(c.rep.fh) : c.rep.fh[i] = f /\ Len(c.fh[i]) = n
+   /\ \A k \in Kinds : \E c \in CfgSpace : Made(c) /\ c.kind = k /\ c.sg.haskl /\ c.rep.kl = f /\ Len(c.sg.kl) = n
+BinFormsAll == \A x \in BinForms : (\E c \in CfgSpace : Made(c) /\ c.rep.fbi = x /\ c.meta.fbi >= 0)
+                                   /\ (\A k \in Kinds : \E c \in CfgSpace : Made(c) /\ c.kind = k /\ c.rep.pay = x)
 ASSUME PrintT(<<"WITNESSES",
   [OuterNarrows3to1 |-> Wit(OuterNarrows3to1), OuterNarrows5to3 |-> Wit(OuterNarrows5to3),
    Hit253After |-> Wit(Hit253After), Hit65536Before |-> Wit(Hit65536Before), Hit65536After |-> Wit(Hit65536After),
    EmptySig |-> Wit(EmptySig), PdNotLast |-> Wit(PdNotLast), RefuseShrink |-> Wit(RefShrink), RefuseName |-> Wit(RefName),
    EitherRegion |-> Wit(EitherRegion), EditEither |-> Wit(EditEither), NameLen253 |-> Wit(NameLen253),
    ContentLen65536 |-> Wit(ContentLen65536), BadPlaceholder |-> Wit(BadPlaceholder),
-   SvClassAll |-> SvClassAll, SvDerAll |-> SvDerAll]>>)
+   SvClassAll |-> SvClassAll, SvDerAll |-> SvDerAll,
+   TupleOfTwo |-> Wit(TupleOfTwo), EmptyTupleHint |-> Wit(EmptyTupleHint), MixedHintForms |-> Wit(MixedHintForms),
+   FormsEverywhere |-> FormsEverywhere, BinFormsAll |-> BinFormsAll]>>)
 =============================================================================
